@@ -119,6 +119,25 @@ def rail_alternations(t, rnd):
     return jobs
 
 
+def clipped_sines(t, rnd):
+    """a sine louder than full scale, clipped at the rails, at the depths where a linear prediction from samples AT the rail leaves the
+    range of the sample type (24..32 bits; 32 above all): the signal enters the rail smoothly, so predictors of order 2 and more
+    overshoot by up to the full scale - the residual must still be the exact difference"""
+    jobs = []
+    for bps in (16, 24, 28, 31, 32, 32, 32):
+        for ch in (1, 2):
+            for gain in (101, 125, 200):
+                for lpc, bs in ((8, 256), (12, 576), (-1, 256), (32, 1152)):
+                    if t == "quick" and (len(jobs) % 3) and bps != 32:
+                        continue
+                    jobs.append({"fe": rnd.choice(FES), "rate": 96000, "bps": bps, "channels": ch,
+                                 "opts": {"block_size": bs, "max_lpc": lpc, "mid_side": rnd.random() < 0.5, "fast_corr": rnd.random() < 0.5,
+                                          "padding": -1, "seektable": "none", "window": rnd.choice(WINDOWS)},
+                                 "pcm": {"signal": "clipsine:%d" % gain, "seed": rnd.randint(1, 99999), "frames": bs * 2 + rnd.choice([0, 100])},
+                                 "tag": "clipped-sine", "inline_limit": 0})
+    return jobs
+
+
 def table_block_sizes(t, rnd, limit=70000):
     """block lengths around the frame header's table of common sizes (192, 576 * 2^n, 256 * 2^n): every multiple of 192 and 576 up to
     4608 * 2, the powers of two and their neighbours - once as the configured block size, once as the length of the final short block"""
